@@ -147,8 +147,11 @@ def _case(draw, ctx):
         sub = draw(st.lists(st.sampled_from(flops), min_size=1, max_size=len(flops), unique=True))
         iv = {f: draw(st.sampled_from(["0", "1"])) for f in sub}
     ign = draw(st.sampled_from([None, None, "clk", ["clk", "rst"], "qn", ["rst"]]))
+    if draw(st.integers(0, 2)) == 0:
+        spec["distinct_bb"] = True
     return {"kind": "seq", "spec": spec, "n": draw(st.integers(1, 4)), "afo": draw(st.booleans()), "init": iv,
-            "ru": draw(st.booleans()), "ignore": ign, "d": "d", "q": "q", "tables": tables}
+            "ru": draw(st.booleans()), "ignore": ign, "d": "d", "q": "q", "tables": tables,
+            "positional": draw(st.integers(0, 3)) == 0}
 
 
 def strategy(ctx):
@@ -247,7 +250,11 @@ def check(case, ctx):
         labels.append("q_unconnected")
     if q in ign_l or d in ign_l:
         return {"nontrivial": False, "labels": ["skipped_ignore_dq"]}
-    out = lib(cg.tx.sequential_unroll, c, n, d, q, **kw)
+    if case.get("positional"):
+        # the documented parameter order
+        out = lib(cg.tx.sequential_unroll, c, n, d, q, kw.get("ignore_pins"), kw["add_flop_outputs"], kw.get("initial_values"), kw["remove_unloaded"])
+    else:
+        out = lib(cg.tx.sequential_unroll, c, n, d, q, **kw)
     uc, io_map = need(out, "seq_unroll", f"sequential_unroll(n={n}, {kw})")
     if refsim.snapshot(c) != snap:
         raise Violation("seq_unroll|mutates_argument", "argument modified")
